@@ -101,9 +101,19 @@ func (env *SpecEnv) btreeSpec(name string, n *ast.CallExpr) (SV, bool) {
 		ref := sel(sel(e.heapArr(st, keyBtRef, aII), tree(), sortArrII), scal(env.eval(n.Args[1])), SInt)
 		return &PtrV{Ty: types.NewPointer(obj.Type()), Addr: ref}, true
 	case "typeidptr":
-		tn := n.Args[0].(*ast.Ident).Name
-		obj := env.pkg.Scope().Lookup(tn)
-		return intSV(e.typeID(types.NewPointer(obj.Type()))), true
+		t, err := resolveTypeExpr(env.pkg, n.Args[0])
+		if err != nil {
+			panic("spec: " + err.Error())
+		}
+		return intSV(e.typeID(types.NewPointer(t))), true
+	case "typeid":
+		t, err := resolveTypeExpr(env.pkg, n.Args[0])
+		if err != nil {
+			panic("spec: " + err.Error())
+		}
+		return intSV(e.typeID(t)), true
+	case "cachetag":
+		return intSV(ufun("ghost.cachetag", []string{SInt}, SInt, env.eval(n.Args[0]).(*PtrV).Addr)), true
 	case "old":
 		if env.e.entry == nil {
 			panic("spec: old() without an entry state")
